@@ -85,11 +85,16 @@ def run(tier):
          {"cfg": "n0", "batches": ["bm3"]}, {"cfg": "n0", "batches": ["bm1"]}],
         [{"cfg": "n0", "batches": ["b1"]}, {"cfg": "n0", "batches": ["bm2"]}, {"cfg": "t0", "batches": ["bm4"]},
          {"cfg": "t0", "batches": ["bm4", "bm1"]}],
+        # near-twins: mirror images, other spellings of the same reactions
+        [{"cfg": "t0", "batches": ["bs1"]}, {"cfg": "t0", "batches": ["bs2"]}, {"cfg": "t0", "batches": ["bs1", "bs2"]}],
+        [{"cfg": "t0", "batches": ["bo1"]}, {"cfg": "t0", "batches": ["bo2"]}, {"cfg": "t0", "batches": ["bo3"]},
+         {"cfg": "t0", "batches": ["bo1"]}],
     ]
     plan = {"keys": [["b1", "t0"], ["b1", "t5"], ["b2", "t0"], ["b2", "t5"], ["b3", "t0"], ["b3", "t9"], ["b1", "c0"],
                      ["b3", "t5"], ["b1", "t9"], ["b1x", "t0"], ["b1y", "t0"], ["b1y", "t5"], ["b3x", "t0"],
                      ["b1", "n0"], ["b2", "n0"], ["b1", "n5"], ["b2", "n5"], ["b1x", "n0"], ["b1y", "n0"],
-                     ["bm1", "n0"], ["bm2", "n0"], ["bm3", "n0"]],
+                     ["bm1", "n0"], ["bm2", "n0"], ["bm3", "n0"], ["bs1", "t0"], ["bs2", "t0"], ["bo1", "t0"], ["bo2", "t0"],
+                     ["bo3", "t0"]],
             "states": plan_states, "histories": plan_h, "prefix_step": 211 if tier == "quick" else 7}
     pf = os.path.join(wd, "plan.json")
     with open(pf, "w") as f:
